@@ -1,4 +1,5 @@
 import Spine.Approval
+import Spine.ApprovalConn
 open Spine.Appr
 /-! Line protocol for the write-approval model (C12). One op per line, one answer per line.
     The member of the family is chosen by the command line: `tally=0|1` (tally map re-created: 1 = as written),
@@ -10,6 +11,7 @@ open Spine.Appr
           lookup <id> <p> <w>    -> outcomes (none)
           commit <id> <p> <0|1>  -> outcomes
           expire <p> <w>         -> outcomes (timeoutTake ; timeoutSend)
+          drop <p>               -> the peer's connection is removed (Spine.Appr.dropConn)
           take <p> <w> / send <p> <w>   -> the two halves of the timeout on their own
           pending <p>            -> the pending writes (debugging)
     outcomes: `.` or a sorted comma-separated list of `<w>:applied`, `<w>:derr` (error produced by a verdict),
@@ -72,6 +74,12 @@ def answer (c : Cfg) (ps : Array St) (ws : List String) : Array St × String :=
       | some s => let s' := step c s (.timeoutSend w); (ps.set! p s', showNew s.outcomes.length s' true)
       | none => (ps, "bad-op")
     | _, _ => (ps, "bad-op")
+  | ["drop", p] =>
+    match p.toNat? with
+    | some p => match getP ps p with
+      | some s => let s' := dropConn s; (ps.set! p s', showNew s.outcomes.length s' false)
+      | none => (ps, "bad-op")
+    | none => (ps, "bad-op")
   | ["pending", p] =>
     match p.toNat? with
     | some p => match getP ps p with
